@@ -122,6 +122,35 @@ add("C18", "exploration",
     "single-field pair and all configs pairwise have distinct hashes; hashes and file names identical in 5 interpreters with different hash seeds.",
     "Representative values per field; tuples nested inside filter args only judged modulo list/tuple on the JSON path; n_mazes excluded from ==/diff by the library.", "5/C18")
 
+add("C06", "exploration",
+    "bounded-exhaustive enumeration of all element-level tokenizer programs (9 coord x 216 adjacency, 9 x 1008 path) over small maze sets, covering full tokenizers over all small inputs, "
+    "and every RNG answer sequence of the shuffles (<= 1 deviation above 2x2), each emitted stream decoded by an independent grammar decoder and compared with the reference model",
+    "Region sweep: all 1 944 adjacency and 9 072 path programs from the library's own all_instances on every 2x2 graph / solved maze, a 3x3 family, 11x11, 17x17 corridor and (thorough) "
+    "50x50 mazes; input sweep: pairwise-covering full tokenizers x all mazes of all kinds on 2x2, 2x3, 3x3 trees and cyclic graphs; whole-prompt sweep: both sequencers x 3 coord "
+    "tokenizers x covering elements x three kinds. Every stream: vocabulary membership, region delimiters once and in order, decoded edge multiset == selected edge set with correct "
+    "labels, origin/target, path steps (coords, cardinal, relative, distance) == reference step rule.",
+    "The product programs x inputs is not claimed; shuffle answers complete only on 2x2; non-square mazes with AllLatticeEdges are rejected by the library (counted). One known finding (Distance gap > 255).", "5/C06")
+add("C07", "exploration",
+    "bounded-exhaustive enumeration of mazes (all admissible graphs <= 3x3, every gen_dfs output on 4x4, structured 11/12/20) x kinds x 3 legacy modes x max_grid_size x modular equivalents "
+    "x input forms x shuffle answers, round trip and legacy-vs-modular agreement judged on every one",
+    "cls.from_tokens(m.as_tokens(t), t) for list and joined-string input must return the same kind with identical bits, start, end and solution; legacy and from_legacy modular tokens must "
+    "agree outside the adjacency region and as multisets of unordered edges inside; MazeDataset.as_tokens(t, limit, join) must equal per-maze tokenization in order under the same RNG answers "
+    "for limit in {None,0,1,n,n+1} x join in {F,T}.",
+    "Shuffle answers complete on 2x2, identity + bounded families elsewhere; grids 2,3,4,11,12,20.", "5/C07")
+add("C10", "exploration",
+    "bounded-exhaustive enumeration of every connection structure up to 3x3 (subset on 3x3 in quick) x kinds x every ordered endpoint pair x every shortest path x 4 flag combinations x "
+    "{pixels, ASCII}, compared pixel by pixel with a reference raster and read back",
+    "Every picture must equal the reference raster (size, border, cells, between-pixels, endpoints, solution) and the ASCII text the same picture character for character; from_pixels / "
+    "from_ascii of the full-flags picture must return the same kind, bits, start, end and ordered solution for start != end with a shortest path; structured grids 4x4, 3x5, 5x3, 6x6 "
+    "(thorough up to 12x12).",
+    "(show_endpoints=False, show_solution=True) may be rejected (documented); larger grids by structured family only.", "5/C10")
+add("C17", "exploration",
+    "bounded-exhaustive enumeration of solved mazes (every graph <= 2x3/3x2 x every simple path; 3x3 family x all pairs x all shortest paths; structured 5x5, 4x6) x all 8 option "
+    "combinations through process_maze_rasterized_input_target, and of dataset triples x index lists through RasterizedMazeDataset, per-pixel reference comparison",
+    "Input image == reference raster with the path hidden and endpoints kept; target == wall except solution pixels (open) with endpoints coloured or opened per option; isolated-pixel "
+    "removal and pixel extension against literal reference implementations; ds[i], get_batch(idxs) for 40 index lists per dataset and from_base_MazeDataset against per-item stacking.",
+    "Grids above 3x3 by structured family; start == end accepts either endpoint colour.", "5/C17")
+
 PLANNED = {}
 
 
